@@ -32,6 +32,12 @@ type repeatCase struct {
 	Twin    bool // list: two functions of one name and file with different start lines, sampled far apart
 	TreeTie bool // call trees: identical subtrees under two roots whose totals cancel
 	Deep    bool // with TreeTie: two stacks that differ near the root and share more than 64 innermost frames
+	// CaseLabels: every label also exists under the same key with a capital first letter and the same values
+	// (two instrumentation layers: "host" and "Host"), so that any case-insensitive ordering has ties
+	CaseLabels bool
+	// RealFile: the reports are written by pprof's own file writer to one real path; between run 0 (fresh file)
+	// and run 1 a longer report (-raw) is written to the same path
+	RealFile bool
 }
 
 var tieOpts = gen.Opts{Alpha: gen.Plain, MaxSamples: 8, MaxDepth: 5, MaxLines: 3, MinTypes: 1, MaxTypes: 2, SmallVals: true, AnyIDs: true, NoHugeIDs: true,
@@ -45,6 +51,11 @@ func genRepeat(t *rapid.T) *repeatCase {
 	if c.TreeTie {
 		c.C.CallTree = true
 		c.C.Format = rapid.SampledFrom([]string{"dot", "dot", "callgrind"}).Draw(t, "treefmt")
+	}
+	c.RealFile = rapid.IntRange(0, 3).Draw(t, "realfile") == 0
+	c.CaseLabels = rapid.IntRange(0, 2).Draw(t, "caselabels") == 0
+	if c.CaseLabels && !c.TreeTie && rapid.Bool().Draw(t, "caseraw") {
+		c.C.Format = rapid.SampledFrom([]string{"raw", "tags", "proto", "traces"}).Draw(t, "casefmt")
 	}
 	return c
 }
@@ -145,6 +156,35 @@ func tieProfile(c *repeatCase) *profile.Profile {
 			}
 		}
 	}
+	if c.CaseLabels {
+		title := func(k string) string {
+			if k == "" || k[0] < 'a' || k[0] > 'z' {
+				return ""
+			}
+			return strings.ToUpper(k[:1]) + k[1:]
+		}
+		if len(p.Sample) > 0 && len(p.Sample[0].Label) == 0 {
+			p.Sample[0].Label = map[string][]string{"host": {"web1"}}
+		}
+		for _, s := range p.Sample {
+			for k, vals := range s.Label {
+				if t := title(k); t != "" && s.Label[t] == nil {
+					s.Label[t] = append([]string{}, vals...)
+				}
+			}
+			for k, vals := range s.NumLabel {
+				if t := title(k); t != "" && s.NumLabel[t] == nil {
+					s.NumLabel[t] = append([]int64{}, vals...)
+					if u, ok := s.NumUnit[k]; ok {
+						if s.NumUnit == nil {
+							s.NumUnit = map[string][]string{}
+						}
+						s.NumUnit[t] = append([]string{}, u...)
+					}
+				}
+			}
+		}
+	}
 	// conflicting units for the numeric tags of several keys (warnings must come in a fixed order too)
 	if c.NegMask&1 != 0 {
 		for i, s := range p.Sample {
@@ -196,8 +236,27 @@ func checkRepeat(c *repeatCase, o *vk.Obs) []string {
 	}
 	o.LabelIf(ties, "equal-magnitudes")
 	o.NonTrivial = ties
+	real := ""
+	if c.RealFile && c.C.Format != "list" {
+		real = filepath.Join(os.Getenv("VERIF_SCRATCH"), fmt.Sprintf("c08report-%d", os.Getpid()))
+		os.Remove(real)
+		defer os.Remove(real)
+		fl["output"] = real
+		o.Label("real-output-file")
+	}
 	for k := 0; k < K; k++ {
-		res := pp.Run(pp.Req{Flags: fl, Args: []string{"src"}, Sources: map[string]*pp.Source{"src": {Prof: p}}})
+		if real != "" && k == 1 {
+			// something longer goes to the same file in between
+			cc := c.C
+			cc.Format = "raw"
+			pf := cc.Flags()
+			pf["output"] = real
+			pp.Run(pp.Req{Flags: pf, Args: []string{"src"}, Sources: map[string]*pp.Source{"src": {Prof: p}}, OSWriter: true})
+			if st, err := os.Stat(real); err == nil && int(st.Size()) > len(first) {
+				o.Label("longer-report-in-between")
+			}
+		}
+		res := pp.Run(pp.Req{Flags: fl, Args: []string{"src"}, Sources: map[string]*pp.Source{"src": {Prof: p}}, OSWriter: real != ""})
 		if res.Panic != "" {
 			return []string{"pprof panicked: " + res.Panic}
 		}
@@ -206,7 +265,13 @@ func checkRepeat(c *repeatCase, o *vk.Obs) []string {
 			errS = res.Err.Error()
 		}
 		_, uiErrs := res.UI.Snapshot()
-		out := res.Out("out") + "\n--- messages ---\n" + strings.Join(uiErrs, "\n")
+		body := res.Out("out")
+		if real != "" && res.Err == nil {
+			// (a command that fails writes nothing and leaves the file as it was)
+			b, _ := os.ReadFile(real)
+			body = string(b)
+		}
+		out := body + "\n--- messages ---\n" + strings.Join(uiErrs, "\n")
 		if k == 0 {
 			first, firstErr = out, errS
 			continue
